@@ -31,8 +31,8 @@ AllTuples == UNION {Tuples(k) : k \in 1..MaxDecl}
 HostLong  == <<"a", "com", "x">>
 HostShort == <<"a">>
 Urls == UrlsOver({HostA}, ULits, MaxUrl)
-        \cup UrlsOver({HostLong}, ULits, 1)
-        \cup {Mk(HostShort, <<"com">> \o s) : s \in SeqsUpTo({"x"}, 2)}
+        \cup UrlsOver({HostLong}, {"x"}, 1)
+        \cup {Mk(HostShort, <<"com">> \o s) : s \in SeqsUpTo({"x"}, 1)}
 Reqs == {[m |-> m, u |-> u] : m \in Methods, u \in Urls}
 
 \* Plugins of the declarations of a configuration. One mode assignment per configuration, chosen by the
